@@ -20,6 +20,93 @@ pub struct Outcome {
     pub plan: String,
     pub dm: Option<DataMatrix>,
     pub panicked: bool,
+    /// a public entry point that answered differently from the builder path (name:answer:expected)
+    pub api: Option<String>,
+    pub api_checked: usize,
+}
+
+fn sig_dm(r: &Result<Result<DataMatrix, DataEncodingError>, String>) -> String {
+    match r {
+        Ok(Ok(dm)) => format!("ok:{}:{}:{}", size_index(dm.size), dm.data_codewords().len(), hex(dm.codewords())),
+        Ok(Err(DataEncodingError::TooMuchOrIllegalData)) => "err:TooMuchOrIllegalData".into(),
+        Ok(Err(DataEncodingError::SymbolListEmpty)) => "err:SymbolListEmpty".into(),
+        Err(_) => "panic".into(),
+    }
+}
+
+/// The documented entry points (`DataMatrix::encode`, `encode_gs1`, `DataMatrixBuilder::encode`,
+/// `data::encode_data`, `data::encodation_plan`, `Default for DataMatrixBuilder`) must answer like the
+/// builder path used for the sweep, with the options they stand for.
+fn api_wrappers(c: &Case, reference: &Result<Result<DataMatrix, DataEncodingError>, String>, plan: &str) -> (Option<String>, usize) {
+    let want = sig_dm(reference);
+    let mut n = 0usize;
+    let mut bad: Option<String> = None;
+    let mut cmp = |name: &str, got: String, want: &str| {
+        n += 1;
+        if got != want && bad.is_none() {
+            bad = Some(format!("{}:{}:{}", name, got, want));
+        }
+    };
+    let list = || list_from_mask(c.mask);
+    if c.eci.is_none() {
+        let c2 = c.clone();
+        let l = list();
+        let r = guarded(move || {
+            DataMatrixBuilder::default()
+                .with_symbol_list(l)
+                .with_macros(c2.macros)
+                .with_encodation_types(modes_from_bits(c2.modes))
+                .with_fnc1_start(c2.fnc1)
+                .encode(&c2.data)
+        });
+        cmp("builder_encode", sig_dm(&r), &want);
+        if c.modes == 63 && c.macros {
+            let c2 = c.clone();
+            let l = list();
+            if c.fnc1 {
+                let r = guarded(move || DataMatrix::encode_gs1(&c2.data, l));
+                cmp("encode_gs1", sig_dm(&r), &want);
+            } else {
+                let r = guarded(move || DataMatrix::encode(&c2.data, l));
+                cmp("encode", sig_dm(&r), &want);
+            }
+        }
+    }
+    if !c.fnc1 {
+        let c2 = c.clone();
+        let l = list();
+        let r = guarded(move || datamatrix::data::encode_data(&c2.data, &l, c2.eci, modes_from_bits(c2.modes), c2.macros));
+        let got = match &r {
+            Ok(Ok((cw, size))) => format!("ok:{}:{}", size_index(*size), hex(cw)),
+            Ok(Err(DataEncodingError::TooMuchOrIllegalData)) => "err:TooMuchOrIllegalData".into(),
+            Ok(Err(DataEncodingError::SymbolListEmpty)) => "err:SymbolListEmpty".into(),
+            Err(_) => "panic".into(),
+        };
+        let want2 = match reference {
+            Ok(Ok(dm)) => format!("ok:{}:{}", size_index(dm.size), hex(dm.data_codewords())),
+            _ => want.clone(),
+        };
+        cmp("data_encode_data", got, &want2);
+    }
+    // the planning API on a message without prefix codewords: the plan the encoder followed
+    if let Ok(Ok(_)) = reference {
+        let no_prefix = c.eci.is_none() && !c.fnc1 && {
+            let (d, m) = (c.data.clone(), c.macros);
+            guarded(move || vh::macro_prefix(&d, m, false)).map(|(cw, _)| cw.is_empty()).unwrap_or(false)
+        };
+        if no_prefix {
+            let c2 = c.clone();
+            let l = list();
+            let r = guarded(move || datamatrix::data::encodation_plan(&c2.data, &l, modes_from_bits(c2.modes)));
+            let got = match r {
+                Ok(Some(p)) => plan_str(&Some(p)),
+                Ok(None) => "none".into(),
+                Err(_) => "panic".into(),
+            };
+            cmp("encodation_plan", got, plan);
+        }
+    }
+    (bad, n)
 }
 
 pub fn mask_hex(mask: u64) -> String {
@@ -51,6 +138,14 @@ pub fn run_case(c: &Case) -> Outcome {
     });
     let plan = vh::last_plan();
     let tr = vh::planner_trace();
+    // every documented entry point, on all short cases and a sample of the long ones
+    let (api, api_checked) = if c.data.len() <= 48 || c.data.len() % 8 == 3 {
+        let a = api_wrappers(c, &r, &plan_str(&plan));
+        let _ = vh::last_plan();
+        a
+    } else {
+        (None, 0)
+    };
     match r {
         Ok(Ok(dm)) => {
             let resp = format!(
@@ -63,17 +158,17 @@ pub fn run_case(c: &Case) -> Outcome {
                 tr.max_live,
                 tr.chosen_cost_ceil_12.unwrap_or(0)
             );
-            Outcome { resp, plan: plan_str(&plan), dm: Some(dm), panicked: false }
+            Outcome { resp, plan: plan_str(&plan), dm: Some(dm), panicked: false, api, api_checked }
         }
         Ok(Err(DataEncodingError::TooMuchOrIllegalData)) => {
-            Outcome { resp: "err:TooMuchOrIllegalData".into(), plan: plan.as_ref().map(|_| plan_str(&plan)).unwrap_or("noplan".into()), dm: None, panicked: false }
+            Outcome { resp: "err:TooMuchOrIllegalData".into(), plan: plan.as_ref().map(|_| plan_str(&plan)).unwrap_or("noplan".into()), dm: None, panicked: false, api, api_checked }
         }
         Ok(Err(DataEncodingError::SymbolListEmpty)) => {
-            Outcome { resp: "err:SymbolListEmpty".into(), plan: "noplan".into(), dm: None, panicked: false }
+            Outcome { resp: "err:SymbolListEmpty".into(), plan: "noplan".into(), dm: None, panicked: false, api, api_checked }
         }
         Err(msg) => {
             let m: String = msg.chars().filter(|c| c.is_ascii_alphanumeric()).take(40).collect();
-            Outcome { resp: format!("panic-{}", m), plan: plan.as_ref().map(|_| plan_str(&plan)).unwrap_or("noplan".into()), dm: None, panicked: true }
+            Outcome { resp: format!("panic-{}", m), plan: plan.as_ref().map(|_| plan_str(&plan)).unwrap_or("noplan".into()), dm: None, panicked: true, api, api_checked }
         }
     }
 }
@@ -175,6 +270,22 @@ pub const TRAIL: &[u8] = b"\x1E\x04";
 /// wrap a body into one of the macro envelope shapes (proper, and all the near misses)
 pub fn macro_shape(rng: &mut Rng, body: &[u8], hist: &mut BTreeMap<String, usize>) -> Vec<u8> {
     let head = if rng.chance(1, 2) { HEAD05 } else { HEAD06 };
+    // one time in three the body itself looks like (part of) an envelope: a second header of either kind in
+    // front, a trailer at its end, just a header, just a trailer
+    let nested: Vec<u8>;
+    let body = if rng.chance(1, 3) {
+        let inner = if rng.chance(1, 2) { HEAD05 } else { HEAD06 };
+        let k = rng.below(6);
+        *hist.entry(format!("macro_body_{}", ["head_body", "body_trail", "head_body_trail", "only_head", "only_trail", "head_trail"][k])).or_insert(0) += 1;
+        let mut b = vec![];
+        if k == 0 || k == 2 || k == 3 || k == 5 { b.extend_from_slice(inner); }
+        if k <= 2 { b.extend_from_slice(body); }
+        if k == 1 || k == 2 || k == 4 || k == 5 { b.extend_from_slice(TRAIL); }
+        nested = b;
+        &nested[..]
+    } else {
+        body
+    };
     let kind = rng.below(9);
     let name = ["proper", "proper", "proper", "head_only", "trail_only", "head_trunc", "trail_partial", "bare_head", "head_trail_only"][kind];
     *hist.entry(format!("macro_{}", name)).or_insert(0) += 1;
